@@ -196,3 +196,8 @@ package eni
 //@ # the addresses of a freshly created interface are entered one by one with their primary flag; the bulk insert (which
 //@ # knows no primary) is used for the IPv6 set only — otherwise a later shrink could unassign the primary address
 //@ guard call Set.PutValid#1 in factoryAllocWorker: recv == l.ipv6
+
+//@ for C07
+//@ # the answer channel is unbuffered: commit can hand an address over only to a caller that is there to take it; when the
+//@ # caller is gone the select in commit takes the cancellation branch and the owner mark is rolled back
+//@ guard makechan * in Allocate: size == 0
